@@ -311,10 +311,21 @@ def oracle_b11(case, out):
             if resp[who] != [1, 0, 0]:
                 bad.append("O4 no datagram lost or duplicated but upload %s saw success/error/nack = %s" %
                            (who, resp[who]))
-    if case.type == 0:
-        for who in ("T", "U"):
-            if sum(resp[who]) == 0:
-                bad.append("O5 confirmable upload %s ended without response, error or NACK" % who)
+    if case.type == 0 and (sum(resp["T"]) == 0 or sum(resp["U"]) == 0):
+        # as in O5 of the single transfer: only an abandoned Confirmable (MAX_RETRANSMIT+1
+        # transmissions, no reply reached the client) obliges the library to tell the application
+        sent_n, answered, txs = {}, set(), {}
+        for f in ev:
+            if f[0] == "TXc" and f[2] == "0":
+                sent_n[f[4]] = sent_n.get(f[4], 0) + 1
+            elif f[0] == "TXs" and f[2] in ("2", "3"):
+                txs[f[1]] = f[4]
+            elif f[0] == "RX" and f[1] in txs:
+                answered.add(txs[f[1]])
+        abandoned = [m for m, n in sent_n.items() if n >= 5 and m not in answered]
+        if abandoned or case.lossless():
+            bad.append("O5 a confirmable request (mid %s) was abandoned but an upload ended without "
+                       "response, error or NACK" % ",".join(abandoned[:3]))
     return bad
 
 
